@@ -153,6 +153,9 @@ def run_rand(shard, rec, B):
     for t in range(shard["n"]):
         N = int(rng.integers(1, 13))
         L = int(rng.integers(1, 21))
+        if t % 10 == 9:     # wide registers and long lists (word / byte thresholds)
+            N = gen.BIG_NS[(t // 10) % len(gen.BIG_NS)]
+            L = [3, gen.BIG_LS[(t // 10) % len(gen.BIG_LS)]][(t // 10) % 2] if B.name == "np" else 3
         gs = gen.rand_list(rng, L, N)
         ps = rng.integers(0, 4, L)
         PL = B.PauliList(gs, ps)
